@@ -101,6 +101,10 @@ def gen(rng, tier):
                             theorem="C14_remove_streams"))
     for (line, _), exp in zip(spec_req, vlib.run_model([r for _, r in spec_req])):
         EXPECT[line] = exp
+    # ---- the executable model of gots.ComputeCRC against the real function (C14's CRC clause is stated relative to it)
+    for n in [0, 1, 2, 3, 4, 5, 16, 183, 184, 1024] + [rng.randrange(0, 1200) for _ in range(40 if quick else 400)]:
+        out.append(Case("pmt.computecrc %s" % hx(L.rand_bytes(rng, n)), kind="crc-model", theorem="C14_filter_spec",
+                        note="Pmt.crc_model = gots.ComputeCRC on this input"))
     # ---- fidelity: outside the hypotheses
     nf = 25 if quick else 400
     fc = [L.rand_carrier(rng, crc="computed", allow_pre=True) for _ in range(nf)]
